@@ -182,7 +182,11 @@ def rule_try_cleanup(ck):
         rest = [q.dotted(a) for a in x.args[1:]]
         ok = q.call_attr(x) in ("add_callback", "add_callback_from_signal", "call_soon", "call_soon_threadsafe") and isinstance(fn, ast.Attribute) and q.dotted(fn.value) in popped and rest == [status]
         ck.ob("C42.reap", fi, x, ok, "_set_returncode of the popped subprocess is scheduled with the status waitpid returned")
-        ck.ob("C42.reap", fi, x, q.receiver(x) is not None and q.receiver(x).split(".")[0] in popped, "scheduled on the subprocess's own IOLoop", construct="own-loop " + q.unparse(x))
+        recv_e = resolve_local(fi, x.func.value) if isinstance(x.func, ast.Attribute) else None
+        recv_d = q.dotted(recv_e) if recv_e is not None else None
+        if recv_d is None:
+            raise AnalysisError("_try_cleanup_process: the loop the callback is scheduled on (%s) is not traceable" % q.unparse(x.func)[:60])
+        ck.ob("C42.reap", fi, x, recv_d.split(".")[0] in popped and recv_d.endswith(".io_loop"), "scheduled on the subprocess's own IOLoop", construct="own-loop")
     pop_ids = {}
     for n, _x in pops:
         pop_ids[n.id] = pop_ids.get(n.id, 0) + 1
@@ -558,6 +562,7 @@ MUTANTS = [
     ("no immediate poll on registration", _m("set_exit_callback", remove_stmts(lambda st: "_try_cleanup_process" in _src(st))), "C42.register-before-poll"),
     ("exit callback invoked without clearing it", _m("_set_returncode", remove_stmts(lambda st: _src(st) == "self._exit_callback = None")), "C42.callback-once"),
     ("seeded C42-adv1: _cleanup stops after the first reaped child", _m("_cleanup", replace_stmt(lambda st: isinstance(st, ast.Expr) and "_try_cleanup_process" in _src(st), lambda st: [parse_stmt("if cls._try_cleanup_process(pid):\n    break")])), "C42.cleanup-all"),
+    ("seeded C42-adv5: status decoded by hand, low byte taken as the signal number (core flag included)", _m("_set_returncode", lambda root: _hand_decode(root)), "C42.status-decoding"),
     ("exit status masked to 7 bits", _m("_set_returncode", replace_expr(lambda n: isinstance(n, ast.Call) and _src(n) == "os.WEXITSTATUS(status)", lambda n: parse_expr("os.WEXITSTATUS(status) & 127"))), "C42.status-decoding"),
     ("positive signal number", _m("_set_returncode", replace_expr(lambda n: isinstance(n, ast.UnaryOp) and isinstance(n.op, ast.USub) and "WTERMSIG" in _src(n), lambda n: n.operand)), "C42.status-decoding"),
     ("WIFEXITED taken for WIFSIGNALED", _m("_set_returncode", replace_expr(lambda n: isinstance(n, ast.Call) and _src(n) == "os.WIFSIGNALED(status)", lambda n: parse_expr("os.WIFEXITED(status)"))), "C42.status-decoding"),
@@ -577,3 +582,16 @@ MUTANTS = [
     ("SIGCHLD routed to a single-pid poll", _m("initialize", replace_expr(lambda n: isinstance(n, ast.Attribute) and n.attr == "_cleanup", lambda n: parse_expr("cls._try_cleanup_process"))), "C42.sigchld"),
     ("callback gets the raw wait status", _m("_set_returncode", replace_expr(lambda n: isinstance(n, ast.Call) and _src(n) == "callback(self.returncode)", lambda n: parse_expr("callback(status)"))), "C42.callback-once"),
 ]
+
+
+def _hand_decode(root):
+    for n in ast.walk(root):
+        if isinstance(n, ast.If) and _src(n.test) == "os.WIFSIGNALED(status)":
+            for par in ast.walk(root):
+                for fld in ("body", "orelse"):
+                    blk = getattr(par, fld, None)
+                    if isinstance(blk, list) and n in blk:
+                        i = blk.index(n)
+                        blk[i:i + 1] = [parse_stmt("signum = status & 0xFF"), parse_stmt("self.returncode = -signum if signum else status >> 8")]
+                        return True
+    return False
